@@ -1,6 +1,7 @@
 package main
 
 import (
+	"sort"
 	"strings"
 
 	"golang.org/x/tools/go/ssa"
@@ -35,6 +36,13 @@ func checkC01(c *Ctx) {
 		c.Unresolved("C01.1", "CommitEvent construction", "no construction site of hotstuff.CommitEvent found")
 	} else {
 		names := emitNames(sites)
+		// a private helper that only commitInner calls emits on commitInner's behalf
+		for i, e := range sites {
+			if p.ownedByAny(e.Fn, []string{"(*hs/protocol/consensus.Committer).commitInner"}) {
+				_ = i
+				names = replaceName(names, shortName(declaredParent(e.Fn)), "(*hs/protocol/consensus.Committer).commitInner")
+			}
+		}
 		c.Check(setEq(names, []string{"(*hs/protocol/consensus.Committer).commitInner"}), "C01.1", "CommitEvent construction", p.InstrPos(sites[0].Instr),
 			"hotstuff.CommitEvent is constructed only in Committer.commitInner ("+itoa(len(sites))+" site)",
 			"hotstuff.CommitEvent constructed in: "+join(names))
@@ -53,13 +61,16 @@ func checkC01(c *Ctx) {
 		return
 	}
 	fl := NewFlow(p, commitInner)
+	siteOf := map[ssa.Instruction]Emit{}
 	for _, e := range sites {
-		if e.Fn != commitInner {
-			continue
-		}
-		facts := fl.At(e.Instr)
+		siteOf[e.Instr] = e
+	}
+	for _, d := range deepInstrs(fl, func(in ssa.Instruction) bool { _, ok := siteOf[in]; return ok }, 0) {
+		e := siteOf[d.Instr]
+		facts := d.Facts
 		blk := complitField(e.Alloc, "Block")
-		bk := fl.K.Key(blk)
+		bk := d.Key(blk)
+		innerBk := d.Flow.K.Key(blk)
 		// C01.2 strictly higher view than the last committed block
 		ok := hasCmp(facts, "<", is(kBlockView+"p2)"), is(kBlockView+bk+")"))
 		c.Check(ok && bk == "p1", "C01.2", "commitInner: view gate", p.InstrPos(e.Instr),
@@ -79,7 +90,7 @@ func checkC01(c *Ctx) {
 		// C01.4 always followed by UpdateCommittedBlock(block)
 		w := reachAvoid(e.Instr, isReturn, func(in ssa.Instruction) bool {
 			ci, ok := in.(ssa.CallInstruction)
-			return ok && calleeIs(ci.Common(), updCB) && fl.K.Key(ci.Common().Args[1]) == bk
+			return ok && calleeIs(ci.Common(), updCB) && d.Flow.K.Key(ci.Common().Args[1]) == innerBk
 		})
 		c.Check(w == nil, "C01.4", "commitInner: record committed block", p.InstrPos(e.Instr),
 			"every path from the emission to a return calls UpdateCommittedBlock("+bk+")",
@@ -127,4 +138,20 @@ func checkC01(c *Ctx) {
 			}
 		}
 	}
+}
+
+func replaceName(names []string, from, to string) []string {
+	seen := map[string]bool{}
+	var out []string
+	for _, n := range names {
+		if n == from {
+			n = to
+		}
+		if !seen[n] {
+			seen[n] = true
+			out = append(out, n)
+		}
+	}
+	sort.Strings(out)
+	return out
 }
